@@ -41,7 +41,7 @@ TEXT = {
         "technique": "Verus contract over the multiset of chunks on the real reassembly code (scans and fold as verified loops) + order-independence lemmas; bounded native enumeration",
         "design_ref": "DESIGN.md §4 C04",
         "level_text": "PwbV2Packet::try_from(Vec<Chunk>) is proved, for every number of chunks, to return DeviceIdMismatch / ChannelIdMismatch exactly when the multiset mixes boards / chips, and otherwise the verdict of the documented ladder (missing-or-duplicated id, missing end flag, early end flag, payload size, decode of the id-ordered concatenation) on an id-sorted arrangement of the same multiset; pure lemmas show that this arrangement, and hence every verdict after the density check including the decoded packet, is unique for the multiset.",
-        "level_note": _COMMON_NOTE + " The five iter().position scans and the payload fold are rewritten into the index loops that define them (rules R13, R14) and verified. Remaining assumed leaf: sort_unstable_by_key (permutation, sorted by id), cross-checked with everything else by native enumeration of every multiset of <=4 (quick) / <=5 (thorough) chunks in every order (labelled bounded); PwbV2Packet::try_from(&[u8]) and BoardId::try_from(u32) enter with the contracts proved in units pwb / chunk. The position reported by MissingChunk in the non-dense case is proved for the sorted arrangement but its independence of the arrangement is only enumerated. chunks.len() <= 2^32 (machine assumption).",
+        "level_note": _COMMON_NOTE + " The five iter().position scans and the payload fold are rewritten into the index loops that define them (rules R13, R14) and verified. Remaining assumed leaf: sort_unstable_by_key (permutation, sorted by id), cross-checked with everything else by native enumeration of every multiset of <=4 (quick) / <=5 (thorough) chunks in every order (labelled bounded); PwbV2Packet::try_from(&[u8]) and BoardId::try_from(u32) enter with the contracts proved in units pwb / chunk. The position reported by MissingChunk is proved for the sorted arrangement, and lemma_position_unique shows that two id-sorted arrangements of the same multiset report the same position, so lemma_order_independent covers that verdict too. chunks.len() <= 2^32 (machine assumption).",
     },
     "C07": {
         "technique": "complete Kani proofs of the real element parsers + Verus stream lemmas (longest prefix, split invariance) + bounded native cross-check of the combinator wiring",
